@@ -335,8 +335,23 @@ func findOrCreateMatchFileIfOverlaps(order *list.List, e1, e2 *HostsMapEntry) {
 		if el1 == nil {
 			el1 = findOrCreateMatchFile(order, e1)
 		}
-		e2._upper = el1
+		// e2 must be placed after all the entries it overlaps with, so its upper
+		// limit can only move forward: e1 might have been added to a match file
+		// that comes before the one of a former, longer entry.
+		if e2._upper == nil || comesBefore(e2._upper, el1) {
+			e2._upper = el1
+		}
 	}
+}
+
+// comesBefore returns true if el1 is placed before el2 in their list
+func comesBefore(el1, el2 *list.Element) bool {
+	for e := el1.Next(); e != nil; e = e.Next() {
+		if e == el2 {
+			return true
+		}
+	}
+	return false
 }
 
 func findOrCreateMatchFile(order *list.List, e1 *HostsMapEntry) *list.Element {
